@@ -98,13 +98,13 @@ Definition is_lifecycle_op_on (o : oid) (op : op) : bool :=
 Definition op_target (op : op) : option oid :=
   match op with OpDisallow o | OpDropObs o => Some o | _ => None end.
 
-Lemma step_readx fuel st op : op <> OpStabilise ->
+Lemma step_readx fuel st op : op <> OpStabilise -> expert_op op = false ->
   match op_target op with
   | Some t => pres (RreadX t) (step fuel st op)
   | None => pres Rread (step fuel st op)
   end.
 Proof.
-  intros Hns. destruct op; try done; simpl.
+  intros Hns Hne. destruct op; try done; simpl.
   all: try (unfold step; solve [go_read]).
   - (* OpDropObs o *)
     unfold step.
@@ -121,11 +121,11 @@ Qed.
 (* C07: an operation other than stabilise does not move any observer's read, except for the
    observer it disallows/drops *)
 Lemma step_read_frame fuel st op s o ob :
-  op <> OpStabilise -> op_target op <> Some o ->
+  op <> OpStabilise -> expert_op op = false -> op_target op <> Some o ->
   obss s !! o = Some ob -> is_Some (nodes s !! o_observing ob) ->
   read_result (step fuel st op s).2 o = read_result s o.
 Proof.
-  intros Hns Ht Ho Hex. pose proof (step_readx fuel st op Hns) as H.
+  intros Hns Hne Ht Ho Hex. pose proof (step_readx fuel st op Hns Hne) as H.
   destruct (op_target op) as [t|] eqn:E.
   - eapply (read_frame t); [apply H|congruence|exact Ho|exact Hex].
   - eapply (read_frame (S o)); [apply Rread_RreadX, H|lia|exact Ho|exact Hex].
@@ -141,18 +141,18 @@ Qed.
 
 (* one step of a history (the op, then the end-of-op collection) *)
 Lemma run_one_read_frame fuel st op s o ob :
-  op <> OpStabilise -> op_target op <> Some o ->
+  op <> OpStabilise -> expert_op op = false -> op_target op <> Some o ->
   obss s !! o = Some ob -> is_Some (nodes s !! o_observing ob) ->
   Forall (fun e => read_result e.2 o = read_result s o) (run fuel [op] st s).
 Proof.
-  intros Hns Ht Ho Hex. cbn [run].
+  intros Hns Hne Ht Ho Hex. cbn [run].
   set (s0 := s <| events := [] |>).
   assert (Rread s0 s) as R0.
   { split_and!; try done; intros; eexists; done. }
   assert (obss s0 !! o = Some ob) as Ho0 by done.
   assert (is_Some (nodes s0 !! o_observing ob)) as Hex0 by done.
-  pose proof (step_read_frame fuel st op s0 o ob Hns Ht Ho0 Hex0) as H1.
-  pose proof (step_readx fuel st op Hns) as HR.
+  pose proof (step_read_frame fuel st op s0 o ob Hns Hne Ht Ho0 Hex0) as H1.
+  pose proof (step_readx fuel st op Hns Hne) as HR.
   destruct (step fuel st op s0) as [r s1] eqn:E. simpl in H1.
   (* the observer and its node still exist after the step *)
   assert (exists ob1, obss s1 !! o = Some ob1 /\ o_observing ob1 = o_observing ob /\ is_Some (nodes s1 !! o_observing ob)) as (ob1 & Ho1 & Hoo & Hex1).
